@@ -25,6 +25,8 @@ Bound == pc = "out" => out.mx <= MinI(Len(ref), Len(est))
 SwapSym == pc = "out" =>
    LET E2 == IF Mode = "abs" THEN EventEdges(est, ref, w) ELSE ModEdges(est, ref, w, Modulus)
    IN  out.mx = MaxSize(Len(est), E2)
+(* C02: the identity pairing is feasible, so a copy of the reference is matched completely *)
+SelfMatch == pc = "out" /\ ref = est => out.mx = Len(ref)
 Export == pc = "out" =>
    PrintT("ROW" \o ToJson([mode |-> Mode, modulus |-> Modulus, ref |-> ref, est |-> est, w |-> w, mx |-> out.mx, e |-> out.e]))
 =============================================================================
